@@ -137,6 +137,12 @@ TABLES = {
    ("services::valve_master_server::service", "construct_payload", None, W, "master server request"),
    ("services::valve_master_server::service", "query_specific", None, CL, "master server exchange"),
   ]},
+ "C14": {"provenance": "generic dispatcher: per protocol arm the callee and exactly which of (socket_addr built from the definition's default port | raw address, port | definition request settings | caller extra settings | defaults) it passes; pinned tree reviewed against the per-game wrappers",
+  "fns": [
+   ("games::query", "query", None, CL, "generic entry"),
+   ("games::query", "query_with_timeout", None, CL, "generic entry with timeout"),
+   ("games::query", "query_with_timeout_and_extra_settings", None, CL, "dispatcher arms"),
+  ]},
  "C16": {"provenance": "Valve Developer Wiki 'Master Server Query Protocol' (request layout, filter keys, \\nor\\ / \\nand\\ groups, reply format); rows reviewed",
   "fns": [
    ("services::valve_master_server::types", "to_bytes", "types::Filter>", W, "filter key table"),
